@@ -1,6 +1,7 @@
 package main
 
 import (
+	"encoding/binary"
 	"encoding/hex"
 	"bytes"
 	"fmt"
@@ -8,6 +9,7 @@ import (
 	"strings"
 
 	"github.com/datastax/go-cassandra-native-protocol/datatype"
+	"github.com/datastax/go-cassandra-native-protocol/frame"
 	"github.com/datastax/go-cassandra-native-protocol/primitive"
 	"verif/internal/gen"
 	"verif/internal/lp"
@@ -265,6 +267,7 @@ func runC04(res *lp.Result) {
 		return
 	}
 	nd := 0
+	var accepted [][]byte // malformed frames the implementation accepts while the model refuses them
 	for i, a := range answers {
 		exp := expect[i]
 		if exp == "panic" && strings.HasPrefix(a, "panic") {
@@ -276,8 +279,44 @@ func runC04(res *lp.Result) {
 		if a != exp && nd < 30 {
 			nd++
 			res.Add(lp.Finding{Kind: "disagreement", What: "model/implementation differ on " + descr[i], Input: lines[i], Impl: exp, Model: a})
+			if f := strings.Fields(lines[i]); len(f) == 4 && f[0] == "frame" && f[1] == "dec" && f[2] == "none" && a == "err" && strings.HasPrefix(exp, "ok") && len(accepted) < 3 {
+				if b, err := hex.DecodeString(f[3]); err == nil {
+					accepted = append(accepted, b)
+				}
+			}
 		}
 	}
+	// search for a failing input behind such a disagreement: a frame that is accepted although a count in it is nonsense may
+	// make the decoder loop or allocate by ANOTHER count in it — every small 32-bit field of the accepted frame is blown up
+	// in turn and the result decoded under the wall-clock limit and the heap watchdog
+	plain := frame.NewRawCodec()
+	for _, base := range accepted {
+		tried := 0
+		for off := 9; off+4 <= len(base) && tried < 64; off++ {
+			if v := binary.BigEndian.Uint32(base[off:]); v >= 1<<16 {
+				continue
+			}
+			tried++
+			m := append([]byte{}, base...)
+			binary.BigEndian.PutUint32(m[off:], 0x7fffffff)
+			in := hx(m)
+			currentInput.Store("frame dec none " + in)
+			res.Count("amplified-accepted-frames")
+			o := guarded(func() (string, int, error) {
+				_, err := plain.DecodeFrame(bytes.NewReader(m))
+				return "", 0, err
+			})
+			if o.kind == "timeout" {
+				res.Add(lp.Finding{Kind: "violation", What: "DecodeFrame/none does not terminate within 10 s on a small input", Input: "DecodeFrame/none " + in})
+				break
+			}
+			if o.kind == "panic" {
+				res.Add(lp.Finding{Kind: "violation", What: "DecodeFrame/none panics on malformed input: " + firstWords(o.text), Input: "DecodeFrame/none " + in, Impl: o.text})
+				break
+			}
+		}
+	}
+	currentInput.Store("")
 	// the CQL value decoders (datacodec): mutated encodings into untyped and typed destinations
 	modes["C04V"](res)
 }
